@@ -81,7 +81,7 @@ def handle (j : Json) : Except String Json := do
     | .ok _ =>
       let xs : List Int := (List.range n).map Int.ofNat
       let outs := rrNexts xs i k s calls 0
-      return Json.mkObj [("err", Json.null), ("outs", toJson outs), ("index", toJson (finalIdx xs i k s calls 0))]
+      return Json.mkObj [("err", Json.null), ("outs", toJson outs), ("index", toJson (rrStateIndex s (finalIdx xs i k s calls 0)))]
   | _ => throw s!"bad op {op}"
 
 end Driver.Shard
